@@ -46,6 +46,12 @@ def nsMode (c : Ctx) : J → Mode
 
 def pValScalarMode (c : Ctx) (S : Bool) (kp : List Str) (k : Str) (op : Option Meta) (v : J) : Mode :=
   match op with
+  | some (.map m) =>
+    if c.cfg.ns && nsStage m then
+      match v with
+      | .str s => .hash s
+      | _ => c.genericMode S (kp ++ [k]) v
+    else c.genericMode S (kp ++ [k]) v
   | some (.ty .FieldName) =>
     if c.rfn then
       match v with
@@ -120,7 +126,11 @@ theorem pValScalar_mode (c : Ctx) (S : Bool) (kp : List Str) (k : Str) (op : Opt
   | some m =>
     cases m with
     | nil => simp only [pValScalar, pValScalarMode]; exact hg
-    | map m => simp only [pValScalar, pValScalarMode]; exact hg
+    | map m =>
+      simp only [pValScalar, pValScalarMode]
+      split
+      · cases v <;> simp only [] <;> first | rfl | exact hg
+      · exact hg
     | ty t =>
       cases t <;> simp only [pValScalar, pValScalarMode] <;> (try exact hg) <;> (try exact hn) <;> (try rfl)
       clear hn
